@@ -593,7 +593,7 @@ common::register! {
 }
 
 common::register_hashmap! {
-    q_fir_readd = fir_readd::<_, false> => 4,
+    t_fir_readd = fir_readd::<_, false> => 4,
     t_fir_readd_any_ssrc = fir_readd::<_, true> => 4,
 }
 
